@@ -211,6 +211,47 @@ def _work(ctx: Ctx, item):
     ctx.hyp(one, cases(), max_examples=n, name="sourcemap")
 
 
+def _deep(ctx: Ctx, item):
+    """A decoder with a manufacturer filter that lives through millions of frames: the excluded manufacturer's traffic never leaks and the
+    other senders keep their identity, however long ago they claimed."""
+    from nmea2000.decoder import NMEA2000Decoder
+    from .. import wire
+    n, mode = item
+    kw = {"exclude_manufacturer_code": ["Garmin"]} if mode == "exclude" else {"include_manufacturer_code": ["Maretron"], "build_network_map": True}
+    dec = NMEA2000Decoder(**kw)
+    names = {5: traffic.iso_name(501, 229), 7: traffic.iso_name(701, 137)}       # 5: Garmin (filtered out), 7: Maretron
+    for src, nm in names.items():
+        dec.decode_tcp(traffic.render({"pgn": 60928, "src": src, "dest": 255, "data": nm.to_bytes(8, "little")}))
+    data = bytes([7, 0x10, 0x27, 0, 0, 0, 0, 0xFD])
+    pk = {src: wire.ebyte(wire.ident(127250, src, 255, 2), data) for src in names}
+    fast = wire.segment(bytes(range(1, 20)), 0)
+    leak = lost = wrong = 0
+    first = None
+    for i in range(n):
+        src = 5 if i % 3 == 0 else 7
+        r = dec.decode_tcp(pk[src])
+        if src == 5:
+            if r is not None:
+                leak += 1
+                first = first or ("leak", i)
+        elif r is None:
+            lost += 1
+            first = first or ("lost", i)
+        elif r.source_iso_name is None or r.source_iso_name.name != names[7]:
+            wrong += 1
+            first = first or ("identity", i)
+    ctx.count(n)
+    ctx.nontrivial_extra += 1
+    ctx.klass("deep_history_frames", n)
+    case = {"deep": n, "mode": mode}
+    if leak:
+        ctx.report(f"C11|deep|leak-manufacturer-{mode}", f"{leak} frames of the filtered-out manufacturer were returned, the first one as frame number {first[1] + 3} of the decoder's life", case)
+    if lost:
+        ctx.report(f"C11|deep|permitted-lost|{mode}", f"{lost} frames of the permitted sender were not returned (first: {first})", case)
+    if wrong:
+        ctx.report(f"C11|deep|identity-lost|{mode}", f"{wrong} messages of the permitted sender lost their identity (first: {first})", case)
+
+
 def _clients(ctx: Ctx, item=None):
     """Claims, manufacturer filters and network mapping through each gateway client, with the link dropped and re-established in the
     middle: the client's decoder (and what it has learnt from claims) lives as long as the client."""
@@ -226,11 +267,21 @@ def _clients(ctx: Ctx, item=None):
 
 def run(ctx: Ctx):
     pmap(ctx, _clients, [None])
+    import os
+    if not os.environ.get("VF_SUBPASS"):
+        # two sweeps of a 2^20-frame period fit in 2.2 million frames
+        pmap(ctx, _deep, [(2_200_000 if ctx.quick else 4_400_000, "exclude"), (2_200_000 if ctx.quick else 4_400_000, "include")])
     n = 120 if ctx.quick else 6000
     pmap(ctx, _work, [(n,)] * 16)
 
 
 def replay(ctx: Ctx, case):
+    if case.get("deep"):
+        from ..common import Ctx as _C
+        sub = _C(ctx.pid)
+        sub.known_open = {}
+        _deep(sub, (case["deep"], case["mode"]))
+        return [(b, v["what"], v["case"]) for b, v in sub.found.items()]
     if case.get("clientopts"):
         from .. import clientopts as co
         return co.replay("C11", _clients, case)
